@@ -19,6 +19,8 @@ import (
 	"verifharness/internal/wj"
 )
 
+func foldName(n string) string { return strings.ToLower(strings.ReplaceAll(n, "_", "")) }
+
 func init() { register("c19", cmdC19) }
 
 var goBuiltins = map[string]bool{"bool": true, "int8": true, "int16": true, "int32": true, "int64": true, "float64": true,
@@ -159,10 +161,21 @@ func c19Run(out *obsWriter, sc svcCase, tmp string) error {
 			parent = int(*s.ParentID)
 		}
 		fns := []string{}
+		fdet := []wj.J{}
 		for _, f := range s.Functions {
 			fns = append(fns, f.ThriftName)
+			args, excs := []string{}, []string{}
+			// the request carries Go names (id -> ID, err2 -> Err2): compared modulo case and underscores
+			for _, a := range f.Arguments {
+				args = append(args, foldName(a.Name))
+			}
+			for _, x := range f.Exceptions {
+				excs = append(excs, foldName(x.Name))
+			}
+			fdet = append(fdet, wj.J{"thriftName": f.ThriftName, "name": f.Name, "oneway": f.OneWay != nil && *f.OneWay, "args": args, "excs": excs, "hasRet": f.ReturnType != nil})
 		}
-		svcs = append(svcs, wj.J{"id": int(id), "name": s.Name, "thriftName": s.ThriftName, "module": int(s.ModuleID), "parent": parent, "functions": fns})
+		sort.Slice(fdet, func(i, j int) bool { return fdet[i]["thriftName"].(string) < fdet[j]["thriftName"].(string) })
+		svcs = append(svcs, wj.J{"id": int(id), "name": s.Name, "thriftName": s.ThriftName, "module": int(s.ModuleID), "parent": parent, "functions": fns, "fdet": fdet})
 	}
 	sort.Slice(svcs, func(i, j int) bool { return svcs[i]["id"].(int) < svcs[j]["id"].(int) })
 	roots := []int{}
@@ -195,7 +208,37 @@ func c19Run(out *obsWriter, sc svcCase, tmp string) error {
 			names = append(names, n)
 		}
 		sort.Strings(names)
-		declared = append(declared, wj.J{"thriftPath": strings.TrimPrefix(mm.ThriftPath, root+"/"), "services": names, "isRoot": mm == m})
+		det := []wj.J{}
+		for _, n := range names {
+			sp := mm.Services[n]
+			par := []string{"", ""}
+			if sp.Parent != nil {
+				par = []string{strings.TrimPrefix(sp.Parent.File, root+"/"), sp.Parent.Name}
+			}
+			var fnames []string
+			for fn := range sp.Functions {
+				fnames = append(fnames, fn)
+			}
+			sort.Strings(fnames)
+			fdet := []wj.J{}
+			for _, fn := range fnames {
+				f := sp.Functions[fn]
+				args, excs := []string{}, []string{}
+				for _, a := range f.ArgsSpec {
+					args = append(args, foldName(a.Name))
+				}
+				hasRet := false
+				if f.ResultSpec != nil {
+					hasRet = f.ResultSpec.ReturnType != nil
+					for _, x := range f.ResultSpec.Exceptions {
+						excs = append(excs, foldName(x.Name))
+					}
+				}
+				fdet = append(fdet, wj.J{"thriftName": f.Name, "oneway": f.OneWay, "args": args, "excs": excs, "hasRet": hasRet})
+			}
+			det = append(det, wj.J{"name": n, "parent": par, "fdet": fdet})
+		}
+		declared = append(declared, wj.J{"thriftPath": strings.TrimPrefix(mm.ThriftPath, root+"/"), "services": names, "isRoot": mm == m, "det": det})
 		return nil
 	})
 	if err := out.write(wj.J{"op": "c19req", "id": sc.ID, "norecurse": sc.NoRecurse, "prefix": req.PackagePrefix, "modules": mods, "services": svcs,
